@@ -330,11 +330,13 @@ def msgFromBytes (d : MsgDef) (bs : Bytes) : Except Err (Nat × Msg) := do
   let t ← segFromBytes (tableOf d.trl) bs2
   pure (h.1 + b.1 + t.1, { hdr := h.2, body := b.2, trl := t.2 })
 
-/-- `Message.get_msg_type` -/
+/-- `Message.get_msg_type` (after a2cfe01: `35=` counts only at the start of the bytes or right after a SOH) -/
 def getMsgType (bs : Bytes) : Except Err Str :=
-  let start := match findSub [51, 53, 61] bs with
-    | some p => p + 2
-    | none => 1                                   -- -1 + 2
+  let start :=
+    if [51, 53, 61].isPrefixOf bs then 2          -- bytes_.startswith(b'35=')
+    else match findSub [1, 51, 53, 61] bs with    -- bytes_.find(SOH + b'35=') + 3
+      | some p => p + 3
+      | none => 2                                 -- -1 + 3
   let stop := match findFrom [1] bs start with
     | some e => e
     | none => bs.length - 1                       -- `[..:-1]`
